@@ -102,7 +102,13 @@ pub fn opt_transform(parent_node: &Node, tag_name: &str) -> Result<Option<Transf
 }
 
 pub fn gen_string<T: Display>(tag_name: &str, value: &T) -> String {
-    format!("<{tag_name} type=\"String\"><![CDATA[{value}]]></{tag_name}>\n")
+    let cdata = escape_cdata(&value.to_string());
+    format!("<{tag_name} type=\"String\"><![CDATA[{cdata}]]></{tag_name}>\n")
+}
+
+/// The sequence `]]>` would end a CDATA section early, so it gets split across two sections.
+pub fn escape_cdata(value: &str) -> String {
+    value.replace("]]>", "]]]]><![CDATA[>")
 }
 
 pub fn gen_float<T: Display>(tag_name: &str, value: T) -> String {
